@@ -669,6 +669,9 @@ class SymPyBool(SymBool):
     """A Python bool with a symbolic value; isinstance(x, bool) holds."""
     __slots__ = ()
     __class__ = bool
+    def __invert__(self):
+        # a Python bool is an int: ~True == -2, ~False == -1 (np.bool_ inverts logically, see SymBool)
+        return SymPyInt(z3.If(self.e, z3.BitVecVal(-2, 64), z3.BitVecVal(-1, 64)))
 
 # datetime units: ticks per day for D; relation between units
 import fractions as _fr
